@@ -190,6 +190,66 @@ def same_result(a, b):
     return a.shape == b.shape and bool(np.allclose(a, b, rtol=1e-12, atol=1e-12, equal_nan=False))
 
 
+# ------------------------------------------------------------------ hardening: dress / non-mutation / optional arguments
+def dressed_samples(vals, rng=None):
+    """the same integer-valued sample in many container/dtype/layout forms"""
+    a = np.array(vals, dtype=np.float64)
+    big = np.full((len(vals), 3), -7.0); big[:, 1] = vals
+    dbl = np.repeat(a, 2); dbl[1::2] = -3.0
+    return {"list": [int(v) for v in vals], "tuple": tuple(int(v) for v in vals), "list_float": [float(v) for v in vals],
+            "int64": np.array(vals, dtype=np.int64), "int32": np.array(vals, dtype=np.int32), "uint8": np.array(vals, dtype=np.uint8),
+            "float32": np.array(vals, dtype=np.float32), "column_of_2d": big[:, 1], "strided": dbl[::2],
+            "negstride": np.array(vals[::-1], dtype=np.float64)[::-1], "column_vector": a.reshape(-1, 1)}
+
+
+def snapshot(v):
+    return np.array(v, copy=True) if isinstance(v, np.ndarray) else (list(v) if isinstance(v, list) else v)
+
+
+def unchanged(v, snap):
+    if isinstance(v, np.ndarray):
+        return v.dtype == snap.dtype and v.shape == snap.shape and bool(np.array_equal(v, snap))
+    return v == snap
+
+
+def flat_results(r):
+    if isinstance(r, (tuple, list)):
+        return [np.asarray(x, dtype=float) if not np.iscomplexobj(x) else np.asarray(x) for x in r]
+    return [np.asarray(r, dtype=float)]
+
+
+def close_results(r, ref, tol):
+    a, b = flat_results(r), flat_results(ref)
+    return len(a) == len(b) and all(x.shape == y.shape and bool(np.allclose(x, y, rtol=tol, atol=tol, equal_nan=True)) for x, y in zip(a, b))
+
+
+def dress_call(ctx, fname, form, fn, ref, inputs, tol=1e-12, detail=None):
+    """call fn() (built on dressed inputs); must not raise, must equal the canonical float64 result `ref`,
+    must leave every input in `inputs` unchanged and must not return memory shared with an input"""
+    ctx.count("dress:" + form); ctx.count("dress_fn:" + fname)
+    inp = {"function": fname, "dress": form, "detail": jsonable(detail)}
+    ctx.case(("dress", fname, form, json.dumps(jsonable(detail), sort_keys=True)), nontrivial=True)
+    snaps = [snapshot(v) for v in inputs]
+    try:
+        with warnings.catch_warnings():
+            warnings.simplefilter("ignore")
+            import io, contextlib
+            with contextlib.redirect_stdout(io.StringIO()):
+                r = fn()
+    except Exception as e:      # noqa
+        ctx.fail("raises_on_admissible_input", "%s raised %s on a %s input: %s" % (fname, type(e).__name__, form, str(e)[:150]), inp, type(e).__name__, "a value")
+        return None
+    if not close_results(r, ref, tol):
+        ctx.fail("dress_result", "%s on a %s input differs from the canonical float64 call" % (fname, form), inp,
+                 [x.ravel()[:4].real.tolist() for x in flat_results(r)][:3], [x.ravel()[:4].real.tolist() for x in flat_results(ref)][:3])
+    if not all(unchanged(v, s) for v, s in zip(inputs, snaps)):
+        ctx.fail("input_mutated", "%s modified its %s input" % (fname, form), inp, None, None)
+    for x in (r if isinstance(r, (tuple, list)) else [r]):
+        if isinstance(x, np.ndarray) and any(isinstance(v, np.ndarray) and np.shares_memory(x, v) for v in inputs):
+            ctx.fail("result_aliases_input", "%s returned memory shared with its input" % fname, inp, None, None)
+    return r
+
+
 def guarded(ctx, inp, fn):
     """run the implementation; an exception on an admissible input is itself a violation"""
     try:
@@ -217,7 +277,7 @@ def run(ctx):
         pass
 
     # ================= gini / lorenz / ecdf
-    lens = ([1, 1, 2, 2, 3, 4, 5, 199, 200] + [rng.randrange(1, 201) for _ in range(200 if thorough else 14)]
+    lens = ([1, 1, 2, 2, 3, 4, 5, 199, 200] + [rng.randrange(1, 201) for _ in range(200 if thorough else 8)]
             + [rng.randrange(2, 41) for _ in range(200 if thorough else 25)])
     cases, meta = [], []
     for n in lens:
@@ -695,6 +755,138 @@ def run(ctx):
     bad = ctx.coq_check("periodogram_every_n", IMPORTS, "nat * list Q", ok, cases, chunk=25, preamble=PRE)
     for i in bad:
         ctx.mismatch("C19.Model.periodogram (index logic for every n) vs _estspec.periodogram", meta[i])
+
+    # ================= hardening: dress (containers, dtypes, layouts, NumPy scalars), optional arguments, non-mutation, aliasing
+    F32 = 2e-5      # float32 inputs are processed in single precision by NumPy itself
+    alive = []      # results kept alive: later calls must not change them (module/class-level buffers)
+    for rep in range(4 if thorough else 2):
+        nn = rng.choice([1, 2, 14, 25]) if rep else 16
+        vals = [rng.randrange(0, 10) for _ in range(nn)]
+        if sum(vals) == 0:
+            vals[0] = 3
+        forms = dressed_samples(vals)
+        canon = np.array(vals, dtype=np.float64)
+        # -- gini / lorenz (numba: ndarray arguments only; unsigned dtypes excluded for gini: y[i]-y[j] wraps in uint8)
+        g_ref, l_ref = gini_coefficient(canon), lorenz_curve(canon)
+        alive.append(("lorenz_curve", l_ref[1], l_ref[1].copy()))
+        for form in ["int64", "column_of_2d", "strided", "negstride"] + (["float32", "int32", "uint8"] if thorough else []):   # each dtype is a numba compilation
+            v = forms[form]
+            if form != "uint8":
+                dress_call(ctx, "gini_coefficient", form, lambda: gini_coefficient(v), g_ref, [v], detail=vals)
+            r = dress_call(ctx, "lorenz_curve", form, lambda: lorenz_curve(v), l_ref, [v], detail=vals)
+            if r is not None and (np.shares_memory(r[0], l_ref[0]) or np.shares_memory(r[1], l_ref[1])):
+                ctx.fail("results_alias_each_other", "two lorenz_curve calls returned shared memory", {"function": "lorenz_curve", "dress": form}, None, None)
+        # -- ECDF: every container, 2-d observations, x as scalars / list / tuple / arrays
+        xs = [vals[0], 4.5, -1, 9]
+        e_ref = [sum(1 for o in vals if o <= x) / len(vals) for x in xs]
+        for form, v in forms.items():
+            for xform, xv in (("x_list", xs), ("x_tuple", tuple(xs)), ("x_int64", None), ("x_float32", np.array(xs, dtype=np.float32)), ("x_scalars", None)):
+                if xform == "x_int64":
+                    fn = lambda: ECDF(v)(np.array([int(x) for x in xs if x == int(x)], dtype=np.int64))
+                    ref = [e for e, x in zip(e_ref, xs) if x == int(x)]
+                elif xform == "x_scalars":
+                    sc = [int(xs[0]), float(xs[1]), np.int32(xs[2]), np.float64(xs[3])]
+                    fn = lambda: [float(ECDF(v)(s)) for s in sc]; ref = e_ref
+                else:
+                    fn = lambda: ECDF(v)(xv); ref = e_ref
+                dress_call(ctx, "ECDF", form + "/" + xform, fn, [np.array(ref)] if xform != "x_scalars" else [np.array(ref)], [v] + ([xv] if xv is not None else []), detail=[vals, xs]) \
+                    if xform != "x_scalars" else dress_call(ctx, "ECDF", form + "/" + xform, lambda: np.array(fn()), np.array(ref), [v], detail=[vals, xs])
+        if nn >= 14:
+            # -- hamilton_filter: containers x integer dress of h, p; p=0 and h=1 explicitly; p omitted vs None
+            for (hh, pp) in [(2, 2), (1, 0), (1, 3), (3, None), (1, None)]:
+                h_ref = hamilton_filter(canon, hh, pp)
+                alive.append(("hamilton_filter", h_ref[0], h_ref[0].copy()))
+                for form, v in forms.items():
+                    if form == "column_vector":
+                        continue        # ndim=1 is documented; a column vector is not an admissible input
+                    for iname, conv in (("int", int), ("np.int64", np.int64), ("np.int32", np.int32), ("np.uint8", np.uint8), ("np.intp", np.intp)):
+                        if iname != "int" and form not in ("list", "int32", "strided"):
+                            continue
+                        if pp is None:
+                            dress_call(ctx, "hamilton_filter", form + "/h:" + iname + "/p_omitted", lambda: hamilton_filter(v, conv(hh)), h_ref, [v],
+                                       tol=F32 if form == "float32" else 1e-10, detail=[vals, hh, None])
+                            dress_call(ctx, "hamilton_filter", form + "/h:" + iname + "/p=None", lambda: hamilton_filter(v, conv(hh), None), h_ref, [v],
+                                       tol=F32 if form == "float32" else 1e-10, detail=[vals, hh, None])
+                        else:
+                            dress_call(ctx, "hamilton_filter", form + "/h,p:" + iname, lambda: hamilton_filter(v, conv(hh), conv(pp)), h_ref, [v],
+                                       tol=F32 if form == "float32" else 1e-10, detail=[vals, hh, pp])
+                            dress_call(ctx, "hamilton_filter", form + "/p_keyword", lambda: hamilton_filter(v, h=conv(hh), p=conv(pp)), h_ref, [v],
+                                       tol=F32 if form == "float32" else 1e-10, detail=[vals, hh, pp])
+            # -- periodogram / ar_periodogram: containers; window omitted / None / '' / positional / keyword; window_len dress
+            p_ref = periodogram(canon)
+            alive.append(("periodogram", p_ref[1], p_ref[1].copy()))
+            pw_ref = periodogram(canon, "flat", 3)
+            ph_ref = periodogram(canon, "hanning", 7)
+            a_ref, an_ref = ar_periodogram(canon), ar_periodogram(canon, None)
+            for form, v in forms.items():
+                if form == "column_vector":
+                    continue
+                tol = F32 if form == "float32" else 1e-10
+                dress_call(ctx, "periodogram", form + "/window_omitted", lambda: periodogram(v), p_ref, [v], tol=tol, detail=vals)
+                dress_call(ctx, "periodogram", form + "/window=None", lambda: periodogram(v, None), p_ref, [v], tol=tol, detail=vals)
+                dress_call(ctx, "periodogram", form + "/window=None,len", lambda: periodogram(v, window=None, window_len=np.int64(5)), p_ref, [v], tol=tol, detail=vals)
+                dress_call(ctx, "periodogram", form + "/flat,3", lambda: periodogram(v, window="flat", window_len=np.int32(3)), pw_ref, [v], tol=tol, detail=vals)
+                dress_call(ctx, "periodogram", form + "/hanning_len_omitted", lambda: periodogram(v, "hanning"), ph_ref, [v], tol=tol, detail=vals)
+                dress_call(ctx, "periodogram", form + "/hanning,7", lambda: periodogram(v, "hanning", 7), ph_ref, [v], tol=tol, detail=vals)
+                dress_call(ctx, "ar_periodogram", form + "/defaults", lambda: ar_periodogram(v), a_ref, [v], tol=max(tol, 1e-9), detail=vals)
+                dress_call(ctx, "ar_periodogram", form + "/explicit_defaults", lambda: ar_periodogram(v, window="hanning", window_len=7), a_ref, [v], tol=max(tol, 1e-9), detail=vals)
+                dress_call(ctx, "ar_periodogram", form + "/window=None", lambda: ar_periodogram(v, None), an_ref, [v], tol=max(tol, 1e-9), detail=vals)
+    # -- BetaBinomial: n as Python / NumPy ints, a and b as ints / NumPy scalars (unsigned 8-bit a, b overflow in NumPy itself: excluded)
+    def bb_all(n, a, b):
+        d = BetaBinomial(n, a, b)
+        return (d.pdf(), d.mean, d.var, d.std, d.skew)
+    for (n, a, b) in [(10, 2, 3), (60, 7, 2), (1, 1, 1), (33, 20, 1)]:
+        ref = bb_all(n, float(a), float(b))
+        for nname, nconv in (("int", int), ("np.int64", np.int64), ("np.int32", np.int32), ("np.uint8", np.uint8), ("np.intp", np.intp)):
+            for aname, aconv, tol in (("float", float, 1e-12), ("int", int, 1e-12), ("np.int64", np.int64, 1e-12), ("np.int32", np.int32, 1e-12),
+                                      ("np.float64", np.float64, 1e-12), ("np.float32", np.float32, F32)):
+                if nname == "np.uint8" and aname not in ("float", "np.float64"):
+                    continue        # uint8 n with integer a, b: NumPy's own 8-bit wrap-around
+                dress_call(ctx, "BetaBinomial", "n:" + nname + "/ab:" + aname, lambda: bb_all(nconv(n), aconv(a), aconv(b)), ref, [], tol=tol, detail=[n, a, b])
+    # -- ARMA: parameter containers / dtypes / NumPy scalars, optional arguments omitted vs explicit defaults, seeds, non-mutation
+    def arma_all(obj, n=8, K=4, res=16, T=6, seed=5):
+        return (obj.impulse_response(n), obj.spectral_density(res=res)[0], obj.spectral_density(res=res)[1].real, obj.autocovariance(K), obj.simulation(T, random_state=seed))
+    with warnings.catch_warnings():
+        warnings.simplefilter("ignore")
+        for (phi_v, theta_v, sig) in [([0.5, 0.25], [0.25], 2), ([0.5], [0.25, -0.5, 0.125], 1), ([1, -0.25], [1], 3)]:
+            ref = arma_all(ARMA([float(x) for x in phi_v], [float(x) for x in theta_v], float(sig)))
+            variants = {"list": (list(phi_v), list(theta_v)), "tuple": (tuple(phi_v), tuple(theta_v)),
+                        "float64": (np.array(phi_v, float), np.array(theta_v, float)), "float32": (np.array(phi_v, np.float32), np.array(theta_v, np.float32)),
+                        "strided": (np.repeat(np.array(phi_v, float), 2)[::2], np.repeat(np.array(theta_v, float), 2)[::2])}
+            if all(float(x) == int(x) for x in phi_v + theta_v):
+                variants["int64"] = (np.array(phi_v, np.int64), np.array(theta_v, np.int64)); variants["int_list"] = ([int(x) for x in phi_v], [int(x) for x in theta_v])
+            for form, (pv, tv) in variants.items():
+                for sname, sconv in (("float", float), ("int", int), ("np.int64", np.int64), ("np.float32", np.float32)):
+                    dress_call(ctx, "ARMA", form + "/sigma:" + sname, lambda: arma_all(ARMA(pv, tv, sconv(sig))), ref, [pv, tv], tol=1e-10, detail=[phi_v, theta_v, sig])
+                for iname, iconv in (("np.int64", np.int64), ("np.int32", np.int32), ("np.intp", np.intp)):
+                    dress_call(ctx, "ARMA", form + "/sizes,seed:" + iname,
+                               lambda: arma_all(ARMA(pv, tv, sig), n=iconv(8), K=iconv(4), res=iconv(16), T=iconv(6), seed=iconv(5)), ref, [pv, tv], tol=1e-10, detail=[phi_v, theta_v, sig])
+                dress_call(ctx, "ARMA", form + "/seed:RandomState", lambda: arma_all(ARMA(pv, tv, sig), seed=np.random.RandomState(5)), ref, [pv, tv], tol=1e-10, detail=[phi_v, theta_v, sig])
+        for (ph, th) in [(0.5, 0.25), (-0.75, 0.0), (0, 0.5)]:
+            ref = arma_all(ARMA(float(ph), float(th), 1.0))
+            for sname, sconv, tol in (("np.float64", np.float64, 1e-10), ("0-d array", np.array, 1e-10), ("np.float32", np.float32, F32)) + ((("int", int, 1e-10),) if ph == int(ph) and th == int(th) else ()):
+                dress_call(ctx, "ARMA", "scalar:" + sname, lambda: arma_all(ARMA(sconv(ph), sconv(th), 1)), ref, [], tol=tol, detail=[ph, th])
+        # optional arguments: omitted vs explicit default vs falsy-but-valid
+        a0 = ARMA([0.5, 0.25])
+        dress_call(ctx, "ARMA", "theta_sigma_omitted", lambda: arma_all(a0), arma_all(ARMA([0.5, 0.25], 0, 1)), [], tol=1e-12)
+        dress_call(ctx, "ARMA", "theta=0.0,sigma=1.0", lambda: arma_all(ARMA([0.5, 0.25], theta=0.0, sigma=1.0)), arma_all(ARMA([0.5, 0.25], [0.0], 1)), [], tol=1e-12)
+        dress_call(ctx, "ARMA", "phi=0(int scalar)", lambda: arma_all(ARMA(0, [0.5])), arma_all(ARMA([0.0], [0.5], 1.0)), [], tol=1e-12)
+        a1 = ARMA([0.5, -0.25], [0.25], 2.0)
+        dress_call(ctx, "ARMA", "defaults:impulse_length", lambda: a1.impulse_response(), a1.impulse_response(30), [], tol=1e-12)
+        dress_call(ctx, "ARMA", "defaults:spectral_density", lambda: a1.spectral_density(), a1.spectral_density(True, 1200), [], tol=1e-12)
+        dress_call(ctx, "ARMA", "two_pi=False", lambda: a1.spectral_density(two_pi=False, res=8)[0], np.arange(8) * math.pi / 8, [], tol=1e-12)
+        dress_call(ctx, "ARMA", "defaults:autocovariance", lambda: a1.autocovariance(), a1.autocovariance(16), [], tol=1e-12)
+        dress_call(ctx, "ARMA", "defaults:simulation", lambda: a1.simulation(random_state=7), a1.simulation(90, random_state=7), [], tol=1e-12)
+        dress_call(ctx, "ARMA", "seed:int_vs_numpy", lambda: a1.simulation(12, random_state=np.int64(7)), a1.simulation(12, random_state=7), [], tol=1e-12)
+        # several objects alive at once: a second object must not disturb the first
+        b1, b2 = ARMA([0.5], [0.25], 1.0), ARMA([-0.5, 0.125], [0.5, 0.5, 0.5], 3.0)
+        r1 = arma_all(b1); arma_all(b2); b2.sigma = 0.5; arma_all(b2)
+        ctx.count("seq:two_objects_alive")
+        dress_call(ctx, "ARMA", "two_objects_alive", lambda: arma_all(b1), r1, [], tol=1e-12)
+    for name, arr, snap in alive:
+        ctx.count("alias:result_kept_alive")
+        if not np.array_equal(arr, snap, equal_nan=True):
+            ctx.fail("result_changed_later", "an array returned earlier by %s was modified by later calls" % name, {"function": name}, None, None)
 
 
 def replay(data):
